@@ -38,6 +38,8 @@ func (p *c19) Rule() string {
 		"(every property, __default__, array element, depth<=8; text, Format, JSON) and 12 (quick) / 24 (thorough) templates built from the walked paths x wrappers are evaluated through run.EvaluateTemplate; walks, template outputs " +
 		"and masked event JSON must be equal; a contact without a name must render as its id in every rendering (default / object, text / Format) and so must @run / @parent / @child. 12 generated ContactQL URN conditions per case are parsed under both policies: " +
 		"property spelled as scheme (all 20 schemes) / urn / urns.<scheme> in any letter case x comparator {=, !=, ~, >, >=, <, <=, HAS, IS in any letter case} x quoted / bare value x 0-3 layers of AND / OR / implicit AND / parentheses (10% with a second URN condition); a condition that under none parses to a valued URN condition must be rejected (or re-read without URN) under urns. " +
+		"Widened classes (independent random streams): 15% of the generated cases repeat a URN (same scheme + path; same / no / other query, other display) inside the URN list of the trigger contact, the parent summary contact or a refreshed contact — twin A keeps the repetition, twin B is re-lettered position-dependently (the k-th repetition of an identity gets another rotation) and has distinct URNs there; " +
+		"35% of the environments of a policy history and 30% of the none-controls that say 'none' say it as the empty string (80%) or null (20%), which ReadEnvironment admits and the monitor's model reads as no policy; 3 implicit query literals per case shaped like URN paths (email 40%, handle, numeric id, phone, scheme-prefixed; bare / quoted; 0-3 nesting layers): whatever ParseQuery returns under policy urns must hold no valued URN condition (stated without reference to the parse under none). " +
 		"Non-trivial = the twins' URN lists differ textually AND the walk in sprints under policy urns visited >= 1 non-null URN-bearing leaf (path *.urn, *.urns[i], urns.<scheme>) in >= 1 run (counter nontrivial.two_runs: in >= 2 distinct runs); " +
 		"distinct = SHA of (twin A scenario incl. its environments, re-lettering of B, restart points)."
 }
@@ -70,7 +72,9 @@ func (p *c19) Floors(tier string) []string {
 		"clause.unnamed_by_id.id_zero_with_urns", "clause.unnamed_by_id.id_beyond_int32_with_urns", "clause.unnamed_by_id.id_negative", "clause.unnamed_by_id.summary_contact_id_zero", "clause.unnamed_run_by_id.id_zero",
 		// query rejection: comparator spellings and nesting
 		"clause.query_rejected.operator_alias", "clause.query_rejected.operator_symbolic", "clause.query_rejected.operator_implicit", "clause.query_rejected.nested_deep",
-		"clause.query_rejected.scheme", "clause.query_rejected.urn-attribute", "clause.query_rejected.urns-prefix"}
+		"clause.query_rejected.scheme", "clause.query_rejected.urn-attribute", "clause.query_rejected.urns-prefix",
+		// widened classes: a URN held twice vs distinct URNs; implicit literals shaped like URN paths; "no policy" written as "" / null
+		"repeats.cases", "clause.walk_equal.repeated_vs_distinct_urns", "clause.query_no_urn_condition_under_urns", "query.implicit_literal.email", "clause.none_sees_urns.empty_string_or_null_policy"}
 }
 
 func tplsPerRun(tier string) int {
@@ -91,10 +95,13 @@ func (p *c19) Run(c fw.Case) fw.Result {
 		r = fw.NewRand(c.Seed, "C19", c.Index)
 	}
 
-	if c.Directed == "contactql-urn-conditions" || c.Directed == "contactql-operator-grid" {
+	if c.Directed == "contactql-urn-conditions" || c.Directed == "contactql-operator-grid" || c.Directed == "contactql-implicit-literals" {
 		qs := directedURNQueries
-		if c.Directed == "contactql-operator-grid" {
+		switch c.Directed {
+		case "contactql-operator-grid":
 			qs = operatorGrid()
+		case "contactql-implicit-literals":
+			qs = implicitLiteralGrid()
 		}
 		res.Fingerprint = c.Directed
 		checkQueries(&res, r, qs)
@@ -144,6 +151,21 @@ func (p *c19) Run(c fw.Case) fw.Result {
 			planPolicies(pr, base)
 			restarts = restartPlan(pr, len(base.Resumes), 0.3)
 		}
+	}
+	if c.Directed == "" {
+		// widened classes, drawn from streams of their own (cases that do not draw them stay as they were)
+		if rr := fw.NewRand(c.Seed, "C19/repeated-urns", c.Index); rr.Chance(0.15) {
+			res.Count("repeats.planted", int64(plantRepeats(rr, base)))
+		}
+		if history {
+			e, n := respellNone(fw.NewRand(c.Seed, "C19/none-spellings", c.Index), base, 0.35)
+			res.Count("env.none_written_as_empty_string", int64(e))
+			res.Count("env.none_written_as_null", int64(n))
+		}
+	}
+	if scenarioRepeats(base) > 0 {
+		res.Count("repeats.cases", 1)
+		res.Count("repeats.list_entries", int64(scenarioRepeats(base)))
 	}
 	if history {
 		res.Count("history.cases", 1)
@@ -235,12 +257,28 @@ func (p *c19) Run(c fw.Case) fw.Result {
 	// --- control: the same pair without redaction must be told apart by the same walk (a policy history is its own
 	// control: its sprints under policy none are checked one by one in compareTwins)
 	if !history {
-		ctlA, errA := observeTwin(twinOf(base, ra, "none"), seed, nil, nil, obsOpts{})
-		ctlB, errB := observeTwin(twinOf(base, rb, "none"), seed, nil, nil, obsOpts{})
+		cA, cB := twinOf(base, ra, "none"), twinOf(base, rb, "none")
+		spelled := "none"
+		if c.Directed == "" {
+			// "no policy" as ReadEnvironment also admits it: the empty string / null (30% of the controls)
+			if sr := fw.NewRand(c.Seed, "C19/control-spelling", c.Index); sr.Chance(0.3) {
+				// the same stream for both twins: they get the same spelling
+				ea, na := respellNone(fw.NewRand(c.Seed, "C19/control-spelling/env", c.Index), cA, 1)
+				respellNone(fw.NewRand(c.Seed, "C19/control-spelling/env", c.Index), cB, 1)
+				if ea+na > 0 {
+					spelled = "empty-or-null"
+				}
+			}
+		}
+		ctlA, errA := observeTwin(cA, seed, nil, nil, obsOpts{})
+		ctlB, errB := observeTwin(cB, seed, nil, nil, obsOpts{})
 		if errA == nil && errB == nil {
-			control(&res, ctlA, ctlB, contactURNsDiffer(twinA, twinB), func(extra map[string]any) map[string]any {
+			control(&res, ctlA, ctlB, contactURNsDiffer(twinA, twinB), spelled, func(extra map[string]any) map[string]any {
 				w := witness(extra)
 				w["policy"] = "none"
+				if spelled != "none" {
+					w["policy"] = "none, written as " + fmt.Sprint(cA.Trigger["environment"].(map[string]any)["redaction_policy"]) + " (empty string / null)"
+				}
 				return w
 			})
 		}
@@ -253,6 +291,13 @@ func (p *c19) Run(c fw.Case) fw.Result {
 		qs = append(qs, genURNQuery(qr))
 	}
 	checkQueries(&res, qr, qs)
+	// … and implicit conditions: literals that look like the path of a URN
+	lr := fw.NewRand(c.Seed, "C19/implicit-literals", c.Index)
+	var ls []urnQuery
+	for i := 0; i < 3; i++ {
+		ls = append(ls, genImplicitLiteral(lr))
+	}
+	checkQueries(&res, lr, ls)
 
 	if res.NonTrivial {
 		var paths []string
@@ -303,6 +348,7 @@ func compareTwins(res *fw.Result, A, B *twinObs, tpls map[[2]int][]tplSpec, witn
 	// the statement still demands that the URNs themselves are hidden whenever the policy is urns, but not that
 	// copies made while they were visible disappear: only URN-bearing leaves and the "shown by id" clause are checked.
 	tainted := false
+	flowChangedURNs := false // a contact_urns_changed event was seen in either twin (add_contact_urn: set semantics)
 	prev := ""
 	sinceSwitch := "" // "urns": some earlier sprint ran under none and the policy is urns now; "none": the reverse
 	for i := 0; i < n; i++ {
@@ -340,7 +386,22 @@ func compareTwins(res *fw.Result, A, B *twinObs, tpls map[[2]int][]tplSpec, witn
 			}
 			prev = policy
 		}
-		if a.urnShape != b.urnShape {
+		for _, e := range a.events {
+			if eventType(e) == "contact_urns_changed" {
+				flowChangedURNs = true
+			}
+		}
+		for _, e := range b.events {
+			if eventType(e) == "contact_urns_changed" {
+				flowChangedURNs = true
+			}
+		}
+		if a.urnShape != b.urnShape && !flowChangedURNs && !tainted && policy == "urns" {
+			// no flow has touched the URNs: both contacts are as they were read from JSON lists of the same schemes and
+			// queries, yet the lists differ in shape. Not set semantics of an added URN — compared like everything else
+			// (the walk reports contact.urns)
+			res.Count("walk.urn_shape_differs_without_flow_change", 1)
+		} else if a.urnShape != b.urnShape {
 			if tainted || policy != "urns" {
 				// while the URNs are (or were) visible the flows may add a URN that one twin already has
 				res.Count("skipped.diverged_after_taint", 1)
@@ -450,6 +511,10 @@ func compareTwins(res *fw.Result, A, B *twinObs, tpls map[[2]int][]tplSpec, witn
 				res.Count("clause.walk_equal.after_restart", int64(len(x.nodes)))
 			}
 			res.Count("walk.urn_leaves", int64(x.urnLeaves))
+			if ra, rb := repeatedIdentities(strings.Fields(a.urnRaw)), repeatedIdentities(strings.Fields(b.urnRaw)); ra != rb {
+				// one twin's session contact holds a URN more than once where the other has distinct URNs
+				res.Count("clause.walk_equal.repeated_vs_distinct_urns", 1)
+			}
 			if x.truncated || y.truncated {
 				res.Count("walk.node_cap_reached", 1)
 			}
@@ -534,9 +599,13 @@ func noneSprint(res *fw.Result, a, b sprintObs, i int, afterSwitch bool, witness
 		if afterSwitch {
 			res.Count("clause.none_sees_urns.after_switch_to_none", 1)
 		}
+		if a.spell == "empty" || a.spell == "null" {
+			res.Count("clause.none_sees_urns.empty_string_or_null_policy", 1)
+			res.Count("clause.none_sees_urns.policy_written_as_"+a.spell, 1)
+		}
 		if du == 0 {
 			res.Violate("C19|control|policy-none-hides-urns", fmt.Sprintf("sprint %d ran under policy none, yet the context of run %d (%s) is identical in the twins on every URN-bearing path although their URNs differ", i, j, x.flow),
-				witness(map[string]any{"sprint": i, "call": a.kind, "run": j, "flow": x.flow, "policy": "none (in force for this sprint)", "contact_urns_a": a.urnRaw, "contact_urns_b": b.urnRaw}))
+				witness(map[string]any{"sprint": i, "call": a.kind, "run": j, "flow": x.flow, "policy": "none (in force for this sprint, written as: " + a.spell + ")", "contact_urns_a": a.urnRaw, "contact_urns_b": b.urnRaw}))
 			return
 		}
 	}
@@ -755,8 +824,11 @@ func merge(a, b map[string]any) map[string]any {
 }
 
 // control: under policy none the walk must tell the twins apart wherever the contact has URNs.
-func control(res *fw.Result, A, B *twinObs, contactDiffers bool, witness func(map[string]any) map[string]any) {
+func control(res *fw.Result, A, B *twinObs, contactDiffers bool, spelled string, witness func(map[string]any) map[string]any) {
 	res.Count("control.pairs", 1)
+	if spelled != "none" {
+		res.Count("control.pairs.none_as_empty_string_or_null", 1)
+	}
 	n := len(A.sprints)
 	if len(B.sprints) < n {
 		n = len(B.sprints)
@@ -793,6 +865,9 @@ func control(res *fw.Result, A, B *twinObs, contactDiffers bool, witness func(ma
 	}
 	if demanded && contactDiffers {
 		res.Count("clause.none_sees_urns", 1)
+		if spelled != "none" {
+			res.Count("clause.none_sees_urns.empty_string_or_null_policy", 1)
+		}
 		if urnDiffs == 0 {
 			res.Violate("C19|control|policy-none-hides-urns", "under policy none the context walk of the twins is identical on every URN-bearing path although their URNs differ", witness(nil))
 		}
